@@ -173,6 +173,141 @@ def unwrapOpt {α : Type} (o : Option α) : Res ε α :=
 `p.debugAsserts`) and `assert!(c)` -/
 def assertThat (c : Bool) : Res ε Unit := if c then .ok () else .panic
 
+/-! ### `try_into` followed by its usual consumers, as `if` on the fit test (simp normal forms) -/
+
+theorem getD_tryIntoUU (m : Nat) (x : BitVec n) (c : BitVec m) :
+    (tryIntoUU m x).getD c = if fitsUU m x = true then x.setWidth m else c := by
+  unfold tryIntoUU; split <;> rfl
+theorem getD_tryIntoUS (m : Nat) (x : BitVec n) (c : BitVec m) :
+    (tryIntoUS m x).getD c = if fitsUS m x = true then x.setWidth m else c := by
+  unfold tryIntoUS; split <;> rfl
+theorem getD_tryIntoSU (m : Nat) (x : BitVec n) (c : BitVec m) :
+    (tryIntoSU m x).getD c = if fitsSU m x = true then x.setWidth m else c := by
+  unfold tryIntoSU; split <;> rfl
+theorem getD_tryIntoSS (m : Nat) (x : BitVec n) (c : BitVec m) :
+    (tryIntoSS m x).getD c = if fitsSS m x = true then x.signExtend m else c := by
+  unfold tryIntoSS; split <;> rfl
+
+theorem okOr_tryIntoUU (m : Nat) (x : BitVec n) (e : ε) :
+    okOr (tryIntoUU m x) e = if fitsUU m x = true then .ok (x.setWidth m) else .err e := by
+  unfold tryIntoUU; by_cases h : fitsUU m x = true <;> simp [h, okOr]
+theorem okOr_tryIntoUS (m : Nat) (x : BitVec n) (e : ε) :
+    okOr (tryIntoUS m x) e = if fitsUS m x = true then .ok (x.setWidth m) else .err e := by
+  unfold tryIntoUS; by_cases h : fitsUS m x = true <;> simp [h, okOr]
+theorem okOr_tryIntoSU (m : Nat) (x : BitVec n) (e : ε) :
+    okOr (tryIntoSU m x) e = if fitsSU m x = true then .ok (x.setWidth m) else .err e := by
+  unfold tryIntoSU; by_cases h : fitsSU m x = true <;> simp [h, okOr]
+theorem okOr_tryIntoSS (m : Nat) (x : BitVec n) (e : ε) :
+    okOr (tryIntoSS m x) e = if fitsSS m x = true then .ok (x.signExtend m) else .err e := by
+  unfold tryIntoSS; by_cases h : fitsSS m x = true <;> simp [h, okOr]
+
+theorem getD_checkedAddU (a b c : BitVec n) :
+    (checkedAddU a b).getD c = if BitVec.uaddOverflow a b = true then c else a + b := by
+  unfold checkedAddU; split <;> rfl
+theorem isSome_checkedAddU (a b : BitVec n) : (checkedAddU a b).isSome = !BitVec.uaddOverflow a b := by
+  unfold checkedAddU; split <;> simp_all
+theorem unwrapOpt_checkedAddU (a b : BitVec n) :
+    (unwrapOpt (checkedAddU a b) : Res ε (BitVec n)) = if BitVec.uaddOverflow a b = true then .panic else .ok (a + b) := by
+  unfold checkedAddU; by_cases h : BitVec.uaddOverflow a b = true <;> simp [h, unwrapOpt]
+theorem okOr_checkedAddU (a b : BitVec n) (e : ε) :
+    okOr (checkedAddU a b) e = if BitVec.uaddOverflow a b = true then .err e else .ok (a + b) := by
+  unfold checkedAddU; by_cases h : BitVec.uaddOverflow a b = true <;> simp [h, okOr]
+theorem getD_checkedAddS (a b c : BitVec n) :
+    (checkedAddS a b).getD c = if BitVec.saddOverflow a b = true then c else a + b := by
+  unfold checkedAddS; split <;> rfl
+theorem isSome_checkedAddS (a b : BitVec n) : (checkedAddS a b).isSome = !BitVec.saddOverflow a b := by
+  unfold checkedAddS; split <;> simp_all
+theorem unwrapOpt_checkedAddS (a b : BitVec n) :
+    (unwrapOpt (checkedAddS a b) : Res ε (BitVec n)) = if BitVec.saddOverflow a b = true then .panic else .ok (a + b) := by
+  unfold checkedAddS; by_cases h : BitVec.saddOverflow a b = true <;> simp [h, unwrapOpt]
+theorem okOr_checkedAddS (a b : BitVec n) (e : ε) :
+    okOr (checkedAddS a b) e = if BitVec.saddOverflow a b = true then .err e else .ok (a + b) := by
+  unfold checkedAddS; by_cases h : BitVec.saddOverflow a b = true <;> simp [h, okOr]
+theorem getD_checkedSubU (a b c : BitVec n) :
+    (checkedSubU a b).getD c = if BitVec.usubOverflow a b = true then c else a - b := by
+  unfold checkedSubU; split <;> rfl
+theorem isSome_checkedSubU (a b : BitVec n) : (checkedSubU a b).isSome = !BitVec.usubOverflow a b := by
+  unfold checkedSubU; split <;> simp_all
+theorem unwrapOpt_checkedSubU (a b : BitVec n) :
+    (unwrapOpt (checkedSubU a b) : Res ε (BitVec n)) = if BitVec.usubOverflow a b = true then .panic else .ok (a - b) := by
+  unfold checkedSubU; by_cases h : BitVec.usubOverflow a b = true <;> simp [h, unwrapOpt]
+theorem okOr_checkedSubU (a b : BitVec n) (e : ε) :
+    okOr (checkedSubU a b) e = if BitVec.usubOverflow a b = true then .err e else .ok (a - b) := by
+  unfold checkedSubU; by_cases h : BitVec.usubOverflow a b = true <;> simp [h, okOr]
+theorem getD_checkedSubS (a b c : BitVec n) :
+    (checkedSubS a b).getD c = if BitVec.ssubOverflow a b = true then c else a - b := by
+  unfold checkedSubS; split <;> rfl
+theorem isSome_checkedSubS (a b : BitVec n) : (checkedSubS a b).isSome = !BitVec.ssubOverflow a b := by
+  unfold checkedSubS; split <;> simp_all
+theorem unwrapOpt_checkedSubS (a b : BitVec n) :
+    (unwrapOpt (checkedSubS a b) : Res ε (BitVec n)) = if BitVec.ssubOverflow a b = true then .panic else .ok (a - b) := by
+  unfold checkedSubS; by_cases h : BitVec.ssubOverflow a b = true <;> simp [h, unwrapOpt]
+theorem okOr_checkedSubS (a b : BitVec n) (e : ε) :
+    okOr (checkedSubS a b) e = if BitVec.ssubOverflow a b = true then .err e else .ok (a - b) := by
+  unfold checkedSubS; by_cases h : BitVec.ssubOverflow a b = true <;> simp [h, okOr]
+theorem getD_checkedMulU (a b c : BitVec n) :
+    (checkedMulU a b).getD c = if BitVec.umulOverflow a b = true then c else a * b := by
+  unfold checkedMulU; split <;> rfl
+theorem isSome_checkedMulU (a b : BitVec n) : (checkedMulU a b).isSome = !BitVec.umulOverflow a b := by
+  unfold checkedMulU; split <;> simp_all
+theorem unwrapOpt_checkedMulU (a b : BitVec n) :
+    (unwrapOpt (checkedMulU a b) : Res ε (BitVec n)) = if BitVec.umulOverflow a b = true then .panic else .ok (a * b) := by
+  unfold checkedMulU; by_cases h : BitVec.umulOverflow a b = true <;> simp [h, unwrapOpt]
+theorem okOr_checkedMulU (a b : BitVec n) (e : ε) :
+    okOr (checkedMulU a b) e = if BitVec.umulOverflow a b = true then .err e else .ok (a * b) := by
+  unfold checkedMulU; by_cases h : BitVec.umulOverflow a b = true <;> simp [h, okOr]
+theorem getD_checkedMulS (a b c : BitVec n) :
+    (checkedMulS a b).getD c = if BitVec.smulOverflow a b = true then c else a * b := by
+  unfold checkedMulS; split <;> rfl
+theorem isSome_checkedMulS (a b : BitVec n) : (checkedMulS a b).isSome = !BitVec.smulOverflow a b := by
+  unfold checkedMulS; split <;> simp_all
+theorem unwrapOpt_checkedMulS (a b : BitVec n) :
+    (unwrapOpt (checkedMulS a b) : Res ε (BitVec n)) = if BitVec.smulOverflow a b = true then .panic else .ok (a * b) := by
+  unfold checkedMulS; by_cases h : BitVec.smulOverflow a b = true <;> simp [h, unwrapOpt]
+theorem okOr_checkedMulS (a b : BitVec n) (e : ε) :
+    okOr (checkedMulS a b) e = if BitVec.smulOverflow a b = true then .err e else .ok (a * b) := by
+  unfold checkedMulS; by_cases h : BitVec.smulOverflow a b = true <;> simp [h, okOr]
+
+theorem unwrapOpt_tryIntoUU (m : Nat) (x : BitVec n) :
+    (unwrapOpt (tryIntoUU m x) : Res ε (BitVec m)) = if fitsUU m x = true then .ok (x.setWidth m) else .panic := by
+  unfold tryIntoUU; by_cases h : fitsUU m x = true <;> simp [h, unwrapOpt]
+
+/-! ### unfolding lemmas that are NOT `rfl`-proofs
+
+`simp only [fitsUU]` would unfold by a definitional rewrite; inside the condition of an `if` this
+leaves the `Decidable` instance behind and later blocks `Res.tag_ite`.  Ties unfold the pure
+helpers through these instead (`simp` then repairs the instance by congruence). -/
+
+theorem fitsUU_def (m : Nat) (x : BitVec n) : fitsUU m x = ((x.setWidth m).setWidth n == x) := by
+  simp only [fitsUU]
+theorem fitsUS_def (m : Nat) (x : BitVec n) :
+    fitsUS m x = ((x.setWidth m).setWidth n == x && !(x.setWidth m).msb) := by simp only [fitsUS]
+theorem fitsSU_def (m : Nat) (x : BitVec n) :
+    fitsSU m x = (!x.msb && (x.setWidth m).setWidth n == x) := by simp only [fitsSU]
+theorem fitsSS_def (m : Nat) (x : BitVec n) : fitsSS m x = ((x.signExtend m).signExtend n == x) := by
+  simp only [fitsSS]
+theorem satAddU_def (a b : BitVec n) :
+    satAddU a b = if BitVec.uaddOverflow a b = true then BitVec.allOnes n else a + b := by simp only [satAddU]
+theorem satSubU_def (a b : BitVec n) :
+    satSubU a b = if BitVec.usubOverflow a b = true then 0#n else a - b := by simp only [satSubU]
+theorem satAddS_def (a b : BitVec n) :
+    satAddS a b = if BitVec.saddOverflow a b = true then
+      (if a.msb = true then BitVec.intMin n else BitVec.intMax n) else a + b := by simp only [satAddS]
+theorem satSubS_def (a b : BitVec n) :
+    satSubS a b = if BitVec.ssubOverflow a b = true then
+      (if a.msb = true then BitVec.intMin n else BitVec.intMax n) else a - b := by simp only [satSubS]
+theorem minU_def (a b : BitVec n) : minU a b = if b.ult a = true then b else a := by simp only [minU]
+theorem maxU_def (a b : BitVec n) : maxU a b = if b.ult a = true then a else b := by simp only [maxU]
+theorem minS_def (a b : BitVec n) : minS a b = if b.slt a = true then b else a := by simp only [minS]
+theorem maxS_def (a b : BitVec n) : maxS a b = if b.slt a = true then a else b := by simp only [maxS]
+theorem castU_def (m : Nat) (x : BitVec n) : castU m x = x.setWidth m := by simp only [castU]
+theorem castS_def (m : Nat) (x : BitVec n) : castS m x = x.signExtend m := by simp only [castS]
+theorem castB_def (m : Nat) (b : Bool) : castB m b = if b = true then 1#m else 0#m := by simp only [castB]
+theorem shOvf_def (n : Nat) (k : BitVec m) : shOvf n k = !(k.ult (BitVec.ofNat m n)) := by simp only [shOvf]
+theorem shAmt_def (n : Nat) (k : BitVec m) : shAmt n k = k &&& BitVec.ofNat m (n - 1) := by simp only [shAmt]
+theorem unsignedAbs_def (a : BitVec n) : unsignedAbs a = if a.msb = true then -a else a := by
+  simp only [unsignedAbs]
+
 /-! ### value-level facts used by ties to `Nat`-carrier models -/
 
 theorem fitsUU_iff (m : Nat) (x : BitVec n) : fitsUU m x = true ↔ x.toNat < 2 ^ m := by
@@ -261,12 +396,21 @@ def ErrCode.comap {ε' : Type} (c : ErrCode ε') (g : ε → ε') (hg : ∀ a b,
   ne0 := fun a => c.ne0 (g a)
   ne1 := fun a => c.ne1 (g a)
 
-@[simp] theorem tag_ok (ec : ε → BitVec 8) (a : α) : (ok a : Res ε α).tag ec = 0#8 := rfl
-@[simp] theorem tag_panic (ec : ε → BitVec 8) : (panic : Res ε α).tag ec = 1#8 := rfl
-@[simp] theorem tag_err (ec : ε → BitVec 8) (e : ε) : (err e : Res ε α).tag ec = ec e := rfl
-@[simp] theorem val_ok (d a : α) : (ok a : Res ε α).val d = a := rfl
-@[simp] theorem val_panic (d : α) : (panic : Res ε α).val d = d := rfl
-@[simp] theorem val_err (d : α) (e : ε) : (err e : Res ε α).val d = d := rfl
+/- NOTE: these six are deliberately NOT `rfl`-proofs: `simp` would use a `rfl` lemma as a definitional
+rewrite inside `if` conditions without fixing the `Decidable` instance, which later blocks
+`tag_ite`/`val_ite`. -/
+@[simp] theorem tag_ok (ec : ε → BitVec 8) (a : α) : (ok a : Res ε α).tag ec = 0#8 := by
+  simp only [tag]
+@[simp] theorem tag_panic (ec : ε → BitVec 8) : (panic : Res ε α).tag ec = 1#8 := by
+  simp only [tag]
+@[simp] theorem tag_err (ec : ε → BitVec 8) (e : ε) : (err e : Res ε α).tag ec = ec e := by
+  simp only [tag]
+@[simp] theorem val_ok (d a : α) : (ok a : Res ε α).val d = a := by
+  simp only [val]
+@[simp] theorem val_panic (d : α) : (panic : Res ε α).val d = d := by
+  simp only [val]
+@[simp] theorem val_err (d : α) (e : ε) : (err e : Res ε α).val d = d := by
+  simp only [val]
 
 theorem tag_bind [Inhabited α] (c : ErrCode ε) (x : Res ε α) (f : α → Res ε β) :
     (x >>= f).tag c.ec = if x.tag c.ec = 0#8 then (f (x.val default)).tag c.ec else x.tag c.ec := by
